@@ -664,6 +664,18 @@ def lean_case(case, arrays):
 
         pts_all = _uniq([p for k in range(nF) for p in eval_points(k)])
         sp = 1 if kind == "nonstatio" else 0
+        # parameter batch: border row i is evaluated with row i of every batched key (the tables are keyed by the
+        # point: the generator keeps the points of different rows distinct)
+        kw_of = {}
+        if case.get("pbatch") and not grid:
+            prs = pb_rows(case)
+            if len(prs) != len(border):
+                raise ValueError("harness: parameter batch and border batch sizes differ")
+            for i, row in enumerate(border):
+                for k in range(nF):
+                    pt = tuple(cc[k] for cc in row)
+                    if kw_of.setdefault(pt, prs[i]) != prs[i]:
+                        raise ValueError("harness: the same border point in two rows of a parameter batch")
         facets = []
         for k, fc in enumerate(c["facets"]):
             if fc is None:
@@ -678,8 +690,8 @@ def lean_case(case, arrays):
         out["boundary"] = {
             "w": c["w"], "global": c["global"], "facets": facets, "grid": grid,
             "border": [[qrow(cc) for cc in row] for row in border],
-            "utab": [[qrow(p), qrow(ex.uval(p))] for p in pts_all],
-            "jtab": [[qrow(p), [qrow(row[sp:]) for row in ex.jac(p)]] for p in pts_all],
+            "utab": [[qrow(p), qrow(ex.uval(p, **kw_of.get(tuple(p), {})))] for p in pts_all],
+            "jtab": [[qrow(p), [qrow(row[sp:]) for row in ex.jac(p, **kw_of.get(tuple(p), {}))]] for p in pts_all],
         }
     if case.get("obs"):
         o, ao = case["obs"], arrays["obs"]
